@@ -8,4 +8,6 @@ mkdir -p bin run evidence replays
 (cd cmd/vfhelper && go build -o ../../bin/vfhelper .)
 mkdir -p fakebin
 for n in tmux zenity rz sz; do ln -sf ../bin/vfhelper fakebin/$n; done
+mkdir -p fakebin-nozm
+for n in tmux zenity; do ln -sf ../bin/vfhelper fakebin-nozm/$n; done
 echo setup ok
